@@ -211,10 +211,11 @@ PROPS["C06"] = {
     "files": ["state/validation.go", "state/state.go", "types/block.go", "types/time/time.go"],
     "groups": [
         {"dir": "state",
-         "quick": ["VP_C06_Validate", "VP_C06_ValidateInitial"],
+         "quick": ["VP_C06_Validate", "VP_C06_ValidateInitial", "VP_C06_Transition"],
          "thorough": []},
     ],
     "bounds": {
+        "transition (H2)": "blocks 2..4 of a 3-validator chain built by State.MakeBlock with genuine commits and applied by the real updateState; the application answers block 2 with one of {no change, power change, removal, newcomer, removal+newcomer in either order}, an optional block-size parameter change and symbolic result codes; each block must validate against the state it extends; each transition is computed twice under arbitrary map orders and must give byte-identical states",
         "validation (H1/H2)": "a 3-validator chain (powers 10,11,12) after block 1; block 2 built by the real State.MakeBlock from a commit whose three precommit timestamps are symbolic whole seconds in [-2,+5] around block 1's time; then exactly one header/content field replaced (version app/block, chain id, height, last block id, app / consensus / results / validators / next-validators hash, proposer, data hash, data content via the wire format, time shifted by a symbolic -3..+3 s, last commit reduced below two thirds) or none; accepted exactly when untouched and the weighted median (independent counting reference) is later than block 1's time; the first block at initial height 1..3: time = genesis time, empty last commit",
     },
     "stubs": ["ed25519 ideal for the symbolic-timestamp sign bytes (natively real)", "sha256 concrete except where timestamps are symbolic"],
